@@ -64,6 +64,7 @@ package mat
 
 //@ func LeftAction
 //@   property C05, C20
+//@   purefn
 //@   bind E group, FiniteModule groupS
 //@   uses matact
 //@   nopanic
